@@ -435,6 +435,7 @@ fn check(prog: &[S], seed: u64) -> Out {
             redundant_parens: 0,
             paren_assign_rhs: true,
             paren_deviating: true,
+            trailing_commas: 0,
             seed: mix(&[seed, k, 0xA]),
         };
         match snapshot(prog, &lay) {
